@@ -346,6 +346,31 @@ class SharedObjects:
             self.ctx.fail("after the caller edited an earlier result in place, a long-lived %s answers differently from a "
                           "fresh one" % self.label, dict(info, fresh=want, shared=got))
             self.objs.clear()
+            return
+        # ... and the edited result itself is handed in again, with operands added that need the work done anew (a
+        # comparison, an implicit operation, a fuzzy term): the answer is the one for the tree as it is now (seeded
+        # C12-I: "already converted" remembered on the root of a result)
+        T = common.impl().tree
+        ops = [n for n in all_nodes(res) if isinstance(n, T.BaseOperation)]
+        if not ops:
+            return
+        tgt = self.rng.choice(ops)
+        extra = [T.SearchField("stock", T.From(T.Word("0"), False), head=" "),
+                 T.Group(T.UnknownOperation(T.Word("p", tail=" "), T.To(T.Word("5"), True)), head=" "),
+                 T.Fuzzy(T.Word("q"), None, head=" ")]
+        tgt.children = list(tgt.children) + [self.rng.choice(extra)]
+        try:
+            d3 = common.dump_tree(res)
+        except Exception:
+            return
+        got3 = self._run(call, shared, lambda: res)
+        want3 = self._run(call, make(), d3)
+        self.ctx.count("history: earlier result edited in place and handed in again")
+        if got3 != want3:
+            self.ctx.fail("a result edited in place (operands added) and handed in again to the same long-lived %s is not "
+                          "treated as a fresh one treats a tree with that content" % self.label,
+                          dict(info, tree_now=d3, fresh=want3, shared=got3))
+            self.objs.clear()
 
     def edited_in_place(self, shared, make, call, d, info):
         """the caller edits a tree it already handed in (another term value, operands in another order) and hands the
